@@ -120,6 +120,31 @@ def sc_cond_mixture_indicator():
         return {"confirmed": True, "scenario": "mixture-indicator regenerate", "observed": "raised %s: %s" % (type(e).__name__, str(e)[:200]), "required": "defined"}
     return {"confirmed": False}
 
+def sc_scan_python_int_carry():
+    """Scan(step)(0, xs): a Python-int initial carry with a step that hands back a float carry is the same model as
+    starting from 0.0 (JAX promotes the weakly typed 0): assess = sum of the step densities along the REAL carry"""
+    @gen
+    def step(c, x):
+        z = nrm(c + x, 1.0) @ "z"
+        return z * 0.5 + 0.25, z
+    sc = Scan(step, length=const(3))
+    xs = jnp.arange(3.0)
+    zs = jnp.asarray([0.7, 1.9, 2.2], dtype=jnp.float32)
+    try:
+        res = {}
+        for name, init in (("0", 0), ("0.0", 0.0)):
+            lp, (carry, outs) = sc.assess({"z": zs}, init, xs)
+            res[name] = (float(lp), float(carry))
+        c, want = 0.0, 0.0
+        for t in range(3):
+            want += float(_logpdf(zs[t], c + float(xs[t]), 1.0)); c = float(zs[t]) * 0.5 + 0.25
+        for name, (lp, carry) in res.items():
+            if not close(lp, want, 1e-4) or not close(carry, c, 1e-4):
+                return {"confirmed": True, "scenario": "Scan(step).assess with initial carry written %s, step carry z/2 + 1/4" % name, "observed": {"log_density": lp, "final_carry": carry}, "required": {"log_density": want, "final_carry": c}}
+    except Exception as e:
+        return {"confirmed": True, "scenario": "Scan(step)(0, xs)", "observed": "raised %s: %s" % (type(e).__name__, str(e)[:200]), "required": "defined (same as 0.0)"}
+    return {"confirmed": False}
+
 def sc_scan_regenerate():
     @gen
     def step(c, x):
